@@ -11,7 +11,7 @@ func checkC07(w *World, r *Result) {
 	statePkgRule(w, r, nil)
 	aliasAppendRule(w, r, nil)
 	r.Assumptions = []string{"sort.Slice is deterministic for a given input sequence", "go/types scope.Names() is sorted (documented)", "justified map-loop table (6 entries with re-checked side conditions)"}
-	for _, a := range []string{"generator.WriteDeclarations", "generator.(Cache).Imports", "analysis.(*Struct).setImplements", "analysis.fetchPkgEnums", "analysis.allNamedTypes", "generator/dart.Generate", "cmd.(Config).run"} {
+	for _, a := range []string{"generator.WriteDeclarations", "generator.(Cache).Imports", "analysis.(*Struct).setImplements", "analysis.fetchPkgEnums", "analysis.fetchPkgUnions", "generator/dart.Generate", "cmd.(Config).run"} {
 		w.MustFunc(a)
 	}
 	pkgIDRule(w, r, nil)
